@@ -25,6 +25,7 @@ fn main() {
         "codec" => codec::main_codec(&args[2..]),
         "gen" => gen::main_gen(&args[2..]),
         "genpaths" => gen::main_genpaths(&args[2..]),
+        "genops" => gen::main_genops(&args[2..]),
         "attrs" => codec::main_attrs(&args[2..]),
         "builder" => builder::main_builder(&args[2..]),
         "pair" => pair::main_pair(&args[2..]),
